@@ -1255,7 +1255,8 @@ class CExec:
             s = stmts[i]
             nxt = []
             for cur in live:
-                for o in self.exec_stmt(cur, s):
+                # (option stmt_guard: a STATEMENT with a construct outside the subset is acceptable iff it is unreachable under the contract)
+                for o in (self.guarded_branch(cur, s, s) if self.opt.get("stmt_guard") else self.exec_stmt(cur, s)):
                     if o[0] == "normal":
                         nxt.append(o[1])
                     elif o[0] == "goto":
